@@ -148,6 +148,29 @@ static void hnd_put_unknown(coap_resource_t *ur, coap_session_t *s, const coap_p
 }
 
 static int last_code[8];
+/* a notification counts as sent the moment the library hands it to the network: the process may die before the peer's event is logged */
+static void on_tx(int node, coap_session_t *sess, const sim_dgram_t *dg, sim_verdict_t *v) {
+  const uint8_t *d = dg->data;
+  int c = (int)sim_port(&dg->dst) - 42000, ty, tkl, code, obs = -1;
+  size_t i, num = 0;
+  char tok[20] = "";
+  (void)node; (void)sess; (void)v;
+  if (dg->len < 4 || c < 0 || c > 7) return;
+  ty = (d[0] >> 4) & 3; tkl = d[0] & 15; code = d[1];
+  if (!code || ty > 1 || tkl > 8) return;
+  tr_hex(tok, d + 4, (size_t)tkl);
+  i = 4 + (size_t)tkl;
+  while (i < dg->len && d[i] != 0xff) {
+    size_t dl = d[i] >> 4, l = d[i] & 15;
+    i++;
+    if (dl == 13) { dl = d[i] + 13u; i++; } else if (dl == 14) { dl = (size_t)((d[i] << 8) | d[i + 1]) + 269; i += 2; }
+    if (l == 13) { l = d[i] + 13u; i++; } else if (l == 14) { l = (size_t)((d[i] << 8) | d[i + 1]) + 269; i += 2; }
+    num += dl;
+    if (num == 6) { size_t k; obs = 0; for (k = 0; k < l; k++) obs = (obs << 8) | d[i + k]; }
+    i += l;
+  }
+  if (obs >= 0) ev("{\"e\":\"Sent\",\"c\":%d,\"obs\":%d,\"tok\":\"%s\"}\n", c, obs, tok);
+}
 static void on_peer_rx(const sim_dgram_t *dg) {
   const uint8_t *d = dg->data;
   int c = (int)sim_port(&dg->dst) - 42000, ty, tkl, code, mid, obs = -1;
@@ -240,6 +263,7 @@ int main(int argc, char **argv) {
   coap_set_log_level(getenv("DRV_DEBUG") ? COAP_LOG_DEBUG : COAP_LOG_EMERG);
   coap_set_prng(prng);
   sim_hooks.on_peer_rx = on_peer_rx;
+  sim_hooks.on_tx = on_tx;
   sim_trace_io = 0;
   sim_reset(1000);
   {
